@@ -16,9 +16,12 @@ tell them apart).  Rounding to binary32/binary64 is round-to-nearest-even, defin
 (`roundBin`).  Scope restrictions (the driver answers `skip=…` outside of them):
   * a decimal whose `BigDecimal::to_f64` goes through `f64` multiplication by `powi(10, n)`
     (negative scale, i.e. written with an exponent such as `1e3`) is not converted to float/double;
-  * xsd:dateTime years beyond ±262000 (within i32), and non-ASCII characters in xsd:dateTime lexical
-    forms when the regex uses the Unicode-aware `\d`; which of `\d`/`[0-9]` and `.unwrap()`/`.ok()?` the
-    source uses is regenerated from it (Gen/DateTimeFlags.lean, tools/extractors/c14.py);
+  * non-ASCII characters in xsd:dateTime lexical forms when the regex uses the Unicode-aware `\d`; which
+    of `\d`/`[0-9]` and `.unwrap()`/`.ok()?` the source uses, and whether `naive_to_fixed` treats an
+    overflowing offset as `unreachable!()`, is regenerated from it (Gen/DateTimeFlags.lean,
+    tools/extractors/c14.py).  The whole range of chrono's `NaiveDate` (years -262143 ..= 262142) is
+    modelled, including the overflow of `checked_sub_offset` at its two ends: the comparison of a
+    timezoned with a non-timezoned dateTime PANICS there (`XsdDateTime.cmpPanics`);
   * ORDER BY keys are variables (values come from the store as terms, `EvalResult::Term`).
 -/
 import SophiaModel.Basic.TermOrder
@@ -332,7 +335,17 @@ inductive XsdDateTime where
 
 def nsPerHour : Int := 3600 * 1000000000
 
-/-- `PartialOrd for XsdDateTime` with `heterogeneous_cmp` (±14 h window, no implicit timezone) -/
+/-- `NaiveDate::MIN` = -262143-01-01 and `NaiveDate::MAX` = 262142-12-31 of chrono 0.4, in days since
+1970-01-01 (`= daysFromCivil (-262143) 1 1`, `daysFromCivil 262142 12 31`: checked below) -/
+def chronoMinDay : Int := -96465292
+def chronoMaxDay : Int := 95026236
+/-- first and last nanosecond chrono can represent (`NaiveDateTime::MIN/MAX`, leap seconds aside) -/
+def chronoMin : Int := -8334601228800000000000
+def chronoMax : Int := 8210266876799999999999
+
+/-- `PartialOrd for XsdDateTime` with `heterogeneous_cmp` (±14 h window, no implicit timezone): the
+outcome when no `naive_to_fixed` overflows (see `cmpPanics`); it is also the exact answer in the
+overflowing cases (`n - 14h` below chrono's range is below every `z`, `n + 14h` above it above every `z`) -/
 def XsdDateTime.partialCmp : XsdDateTime → XsdDateTime → Option Ordering
   | .naive a, .naive b => some (compare a b)
   | .zoned a, .zoned b => some (compare a b)
@@ -340,6 +353,21 @@ def XsdDateTime.partialCmp : XsdDateTime → XsdDateTime → Option Ordering
     if z < n - 14 * nsPerHour then some .lt else if n + 14 * nsPerHour < z then some .gt else none
   | .naive n, .zoned z =>
     if z < n - 14 * nsPerHour then some .gt else if n + 14 * nsPerHour < z then some .lt else none
+
+/-- `heterogeneous_cmp(z, n)`: does one of its two `naive_to_fixed` calls reach `unreachable!()`?
+`naive_to_fixed(n, 14)` (UTC instant `n - 14h`; always evaluated) overflows below chrono's range,
+`naive_to_fixed(n, -14)` (`n + 14h`; evaluated only when `z < n - 14h` is false) above it:
+`NaiveDateTime::and_local_timezone` is then `LocalResult::None` (`checked_sub_offset`). -/
+def hetPanics (z n : Int) : Bool :=
+  Gen.dateTimeOffsetUnreachable &&
+    (decide (n - 14 * nsPerHour < chronoMin) ||
+      (!decide (z < n - 14 * nsPerHour) && decide (chronoMax < n + 14 * nsPerHour)))
+
+/-- does `XsdDateTime::partial_cmp` panic -/
+def XsdDateTime.cmpPanics : XsdDateTime → XsdDateTime → Bool
+  | .zoned z, .naive n => hetPanics z n
+  | .naive n, .zoned z => hetPanics z n
+  | _, _ => false
 
 def isLeap (y : Int) : Bool := y % 4 == 0 && (y % 100 != 0 || y % 400 == 0)
 
@@ -434,14 +462,14 @@ def parseDateTime (s : Str) : DTParse :=
         if yv > 2147483647 then (if Gen.dateTimeYearUnwrap then .panic else .invalid) else
         let year : Int := if neg then -(yv : Int) else yv
         if year < -262143 || year > 262142 then .invalid else      -- `NaiveDate::from_ymd_opt` (chrono's year range)
-        if year < -262000 || year > 262000 then .outside else      -- near the range ends offsets may overflow: not modelled
         let nano : Nat := match frac with
           | none => 0
           | some fd => if fd.length ≥ 9 then digitsVal (fd.take 9) else digitsVal fd * 10 ^ (9 - fd.length)
         if mo < 1 || mo > 12 || dd < 1 || dd > daysInMonth year mo then .invalid else
         let day := daysFromCivil year mo dd
         let secs : Option Int :=
-          if hh == 24 && mi == 0 && ss == 0 && nano == 0 then some ((day + 1) * 86400)
+          if hh == 24 && mi == 0 && ss == 0 && nano == 0 then
+            (if chronoMaxDay < day + 1 then none else some ((day + 1) * 86400))   -- `checked_add_days(Days::new(1))?`
           else if hh < 24 && mi < 60 && ss < 60 then some (day * 86400 + hh * 3600 + mi * 60 + ss)
           else none
         match secs with
@@ -452,7 +480,10 @@ def parseDateTime (s : Str) : DTParse :=
           | none => .ok (.naive t)
           | some off =>
             if off ≤ -86400 || off ≥ 86400 then .invalid       -- `FixedOffset::east_opt`
-            else .ok (.zoned (t - off * 1000000000))
+            else
+              let u : Int := t - off * 1000000000
+              -- `naive.and_local_timezone(offset).single()?`: the UTC instant must be representable
+              if u < chronoMin || chronoMax < u then .invalid else .ok (.zoned u)
 
 /-! ## `SparqlValue` -/
 
@@ -574,6 +605,17 @@ def panics : Term → Bool
   | .lit lex dt => dt == xsdPrefix ++ XsdName.dateTime && (match parseDateTime lex with | .panic => true | _ => false)
   | _ => false
 
+/-- does `SparqlValue::partial_cmp` panic (only the dateTime arm can) -/
+def SparqlValue.cmpPanics : SparqlValue → SparqlValue → Bool
+  | .dateTime (some d1), .dateTime (some d2) => d1.cmpPanics d2
+  | _, _ => false
+
+/-- does `EvalResult::sparql_cmp` (hence FILTER's `<` and `sparql_order_by`) panic on these two terms -/
+def sparqlCmpPanics (a b : Term) : Bool :=
+  match tryFromTerm a, tryFromTerm b with
+  | some va, some vb => va.cmpPanics vb
+  | _, _ => false
+
 /-- is the term inside the modelled domain (see the header) -/
 def inDomain : Term → Bool
   | .lit lex dt => !(dt == xsdPrefix ++ XsdName.dateTime && (match parseDateTime lex with | .outside => true | _ => false))
@@ -628,6 +670,30 @@ def cmpBindingsWith (b1 b2 : Binding) : List (Str × Bool) → Ordering
     let o := keyCmp (eval e b1) (eval e b2)
     let o := if desc then o.swap else o
     o.then (cmpBindingsWith b1 b2 rest)
+
+/-- does the comparison of two solutions on one criterion panic -/
+def keyPanics (v1 v2 : Option Term) : Bool :=
+  match v1, v2 with
+  | some x, some y => sparqlCmpPanics x y
+  | _, _ => false
+
+/-- does `cmp_bindings_with` reach a panicking comparison: criteria are evaluated left to right, a later
+one only when all earlier ones tie (`then_with`) -/
+def cmpBindingsPanics (b1 b2 : Binding) : List (Str × Bool) → Bool
+  | [] => false
+  | (e, _) :: rest =>
+    keyPanics (eval e b1) (eval e b2) ||
+      (keyCmp (eval e b1) (eval e b2) == .eq && cmpBindingsPanics b1 b2 rest)
+
+/-- rank of a key value for the kind-order clause of the property: unbound < blank node < IRI <
+literal (`none` = not ranked by the property: quoted triples, variables) -/
+def kindRank : Option Term → Option Nat
+  | none => some 0
+  | some (.bnode _) => some 1
+  | some (.iri _) => some 2
+  | some (.lit _ _) => some 3
+  | some (.lang _ _) => some 3
+  | _ => none
 
 /-- how a pair of terms is compared: by value (`v`) or by the `Term::cmp` fallback (`t`) -/
 def byValue (a b : Term) : Bool := (sparqlCmp a b).isSome
